@@ -175,6 +175,8 @@ class World(object):
             inst = ':0' if instanced else ''
             self.targets.append('fb%s.r0' % inst)      # required line of the other form
             self.targets.append('fb%s.o0' % inst)      # optional line of the other form
+            if instanced:
+                self.targets.append('fb:1.r0')         # a second numbered copy of the same form
         if allow_abort_targets:
             self.targets.append('nope.x')              # unsupported form -> NotImplementedError
             self.targets.append('fa.zz')               # unknown line of a known form -> the solver's assertion
